@@ -3,6 +3,7 @@ package c02
 import (
 	"fmt"
 	"os"
+	"regexp"
 	"sort"
 	"strings"
 	"time"
@@ -21,15 +22,18 @@ const (
 	flowNormal = iota
 	flowFloat
 	flowAbs
-	flowRepeat // table header/footer groups, position:fixed: CSS-defined repetition
+	flowRepeat   // table header/footer groups, position:fixed: CSS-defined repetition
+	flowFootnote // the body of a float:footnote element: laid out exactly once (in the footnote area)
+	flowCell     // a cell of a table with spans whose row may split across pages: its lines exactly once, in order
 )
 
 type flowInfo struct {
-	kind   int
-	inLine bool   // flowFloat: the float sits inside a line, glued to the words around it
-	rep    string // for flowRepeat: "fixed" | "thead" | "tfoot"
-	id     string // element id of the flow root ("" for the normal flow)
-	toks   []int
+	kind    int
+	callTok int    // flowFootnote: the word the footnote call follows
+	inLine  bool   // flowFloat: the float sits inside a line, glued to the words around it
+	rep     string // for flowRepeat: "fixed" | "thead" | "tfoot"
+	id      string // element id of the flow root ("" for the normal flow)
+	toks    []int
 }
 
 // General is one generated general document.
@@ -39,7 +43,10 @@ type General struct {
 	FlowOf   map[int]int // token id -> flow index
 	Features map[string]bool
 	// Letters: the marker letter that starts a paragraph styled with ::first-letter -> is the letter floated
-	Letters map[string]bool
+	Letters    map[string]bool
+	Footnotes  bool    // float:footnote elements (calls and markers are generated digits)
+	PagesCount bool    // a margin box shows counter(page) "/" counter(pages): every page is made again
+	FFParas    [][]int // the tokens of each paragraph with a floated ::first-letter, in order
 	// FFFirstTok: the token glued to the marker letter of a paragraph with a FLOATED ::first-letter
 	FFFirstTok map[int]bool
 	// InlineFloatPara: tokens of paragraphs that contain a float between two words of a line
@@ -47,13 +54,14 @@ type General struct {
 }
 
 type ggen struct {
-	r    *rng.R
-	n    int
-	nid  int
-	buf  strings.Builder
-	doc  *General
-	cur  int // current flow
-	feat map[string]bool
+	footnotes bool // this document may contain footnotes (then its page rule re-makes the pages)
+	r         *rng.R
+	n         int
+	nid       int
+	buf       strings.Builder
+	doc       *General
+	cur       int // current flow
+	feat      map[string]bool
 }
 
 func (g *ggen) tok() string {
@@ -124,6 +132,7 @@ func (g *ggen) firstLetterPara(floated, punct, nested bool, n int, style string)
 	if punct {
 		pre = `"`
 	}
+	startTok := g.n + 1
 	if floated {
 		g.doc.FFFirstTok[g.n+1] = true
 	}
@@ -136,6 +145,13 @@ func (g *ggen) firstLetterPara(floated, punct, nested bool, n int, style string)
 		g.buf.WriteString(" " + g.tok())
 	}
 	g.buf.WriteString("</div>")
+	if floated {
+		var ts []int
+		for t := startTok; t <= g.n; t++ {
+			ts = append(ts, t)
+		}
+		g.doc.FFParas = append(g.doc.FFParas, ts)
+	}
 }
 
 // floatInLine writes a paragraph with a float glued between two words (no white space around it).
@@ -159,16 +175,105 @@ func (g *ggen) floatInLine(before, after, inFloat int, side string) {
 	g.feat["float-in-line"] = true
 }
 
+// footnotePara writes a paragraph of words some of which are followed by a footnote (float:footnote).
+func (g *ggen) footnotePara(words, notes int, style string) {
+	class := ""
+	if g.doc.PagesCount {
+		class = ` class="tp"` // ::after shows counter(pages): the page holding this paragraph is made again
+	}
+	fmt.Fprintf(&g.buf, `<div%s style="%s">`, class, style)
+	for i := 0; i < words; i++ {
+		if i > 0 {
+			g.buf.WriteString(" ")
+		}
+		g.buf.WriteString(g.tok())
+		if i < notes {
+			call := g.n
+			restore, id := g.newFlow(flowFootnote)
+			g.doc.Flows[g.cur].callTok = call
+			fmt.Fprintf(&g.buf, `<span id="%s" class="fn">`, id)
+			g.lines(1+g.r.Intn(2), true)
+			g.buf.WriteString(`</span>`)
+			restore()
+		}
+	}
+	g.buf.WriteString("</div>")
+	g.doc.Footnotes = true
+	g.feat["footnote"] = true
+}
+
+// cell writes one table cell that is its own flow.
+func (g *ggen) cell(attr string, lines int) {
+	restore, id := g.newFlow(flowCell)
+	fmt.Fprintf(&g.buf, `<td id="%s" %s style="padding:0">`, id, attr)
+	g.lines(lines, false)
+	g.buf.WriteString(`</td>`)
+	restore()
+}
+
+// spanTable writes a 3-column table whose tall cells (they may break across pages) come after a colspan
+// in their row or after a column taken by a rowspan from the row above.
+func (g *ggen) spanTable(rows int) {
+	r := g.r
+	g.buf.WriteString(`<table style="border-spacing:0">`)
+	if r.Bool() {
+		restore, id := g.newFlow(flowRepeat)
+		g.doc.Flows[g.cur].rep = "thead"
+		fmt.Fprintf(&g.buf, `<thead id="%s"><tr><td colspan="3" style="padding:0">%s</td></tr></thead>`, id, g.tok())
+		restore()
+		g.feat["thead"] = true
+	}
+	g.buf.WriteString("<tbody>")
+	for i := 0; i < rows; i++ {
+		tall := 2 + r.Intn(6)
+		switch r.Intn(4) {
+		case 0: // colspan before the tall cell
+			g.buf.WriteString("<tr>")
+			g.cell(`colspan="2"`, 1+r.Intn(2))
+			g.cell("", tall)
+			g.buf.WriteString("</tr>")
+			g.feat["colspan-before-tall-cell"] = true
+		case 1: // rowspan from this row occupies column 0 of the next row, whose first cell is tall
+			g.buf.WriteString("<tr>")
+			g.cell(`rowspan="2"`, 1+r.Intn(3))
+			g.cell("", 1)
+			g.cell("", 1+r.Intn(2))
+			g.buf.WriteString("</tr><tr>")
+			g.cell("", tall)
+			g.cell("", 1+r.Intn(3))
+			g.buf.WriteString("</tr>")
+			g.feat["rowspan-before-tall-cell"] = true
+		case 2: // colspan after the tall cell (control)
+			g.buf.WriteString("<tr>")
+			g.cell("", tall)
+			g.cell(`colspan="2"`, 1+r.Intn(3))
+			g.buf.WriteString("</tr>")
+		default: // plain row, two tall cells
+			g.buf.WriteString("<tr>")
+			g.cell("", 1)
+			g.cell("", tall)
+			g.cell("", 1+r.Intn(tall))
+			g.buf.WriteString("</tr>")
+		}
+	}
+	g.buf.WriteString("</tbody></table>")
+	g.feat["span-table"] = true
+}
+
 func (g *ggen) item(depth int, allowOOF bool) {
 	r := g.r
-	c := r.Intn(17)
+	c := r.Intn(20)
 	switch {
 	case c <= 4 || depth > 2: // paragraph
 		sp := r.P(1, 4)
 		if sp {
 			g.feat["wrapped-text"] = true
 		}
-		fmt.Fprintf(&g.buf, `<div style="%s">`, g.breaks())
+		class := ""
+		if g.doc.PagesCount && r.P(1, 3) {
+			class = ` class="tp"`
+		}
+		fmt.Fprintf(&g.buf, `<div%s style="%s">`, class, g.breaks())
 		g.lines(1+r.Intn(7), sp)
 		g.buf.WriteString("</div>")
 	case c <= 6: // nested block
@@ -214,6 +319,10 @@ func (g *ggen) item(depth int, allowOOF bool) {
 		g.firstLetterPara(c == 15 && allowOOF && r.Bool(), r.Bool(), r.P(1, 3), 1+r.Intn(6), g.breaks())
 	case c == 16 && allowOOF: // a float inside a line
 		g.floatInLine(1+r.Intn(3), 1+r.Intn(3), 1+r.Intn(2), rng.Pick(r, "left", "right"))
+	case (c == 17 || c == 18) && g.footnotes: // footnotes
+		g.footnotePara(2+r.Intn(5), 1+r.Intn(3), g.breaks())
+	case c == 19 || (c == 17 && !g.footnotes): // table with spans and tall cells
+		g.spanTable(1 + r.Intn(4))
 	case c == 12 || c == 13: // table with header / footer groups
 		g.buf.WriteString(`<table style="border-spacing:0">`)
 		if r.Bool() {
@@ -255,8 +364,13 @@ func newGeneral(r *rng.R) (*General, *ggen) {
 
 // head writes the style sheet: page content height h px, width 200 px.
 func (g *ggen) head(h int) {
-	fmt.Fprintf(&g.buf, `<style>@page{size:220px %dpx;margin:10px} html,body{margin:0;font:20px/20px Ahem} td{padding:0} `+
-		`.fi::first-letter{color:red} .ff::first-letter{float:left}</style><body>`, h+20)
+	page := fmt.Sprintf(`@page{size:220px %dpx;margin:10px}`, h+20)
+	if g.doc.PagesCount {
+		// counter(pages) is unknown during the first pagination: every page is made a second time
+		page = fmt.Sprintf(`@page{size:220px %dpx;margin:10px 10px 30px;@bottom-center{content:counter(page) "/" counter(pages);font:10px/10px Ahem}}`, h+40)
+	}
+	fmt.Fprintf(&g.buf, `<style>%s html,body{margin:0;font:20px/20px Ahem} td{padding:0} `+
+		`.fi::first-letter{color:red} .ff::first-letter{float:left} .fn{float:footnote} .tp::after{content:" " counter(pages)}</style><body>`, page)
 }
 
 // GenGeneral builds a general document.  mode 0: everything; 1: floats only (besides blocks);
@@ -264,6 +378,13 @@ func (g *ggen) head(h int) {
 func GenGeneral(r *rng.R, mode int) *General {
 	d, g := newGeneral(r)
 	h := 60 + r.Intn(8)*20
+	if mode == 0 && r.P(1, 3) {
+		g.footnotes = true
+		d.PagesCount = r.P(2, 3)
+		h += 40
+	} else if r.P(1, 6) {
+		d.PagesCount = true
+	}
 	g.head(h)
 	k := 2 + r.Intn(6)
 	for i := 0; i < k; i++ {
@@ -272,6 +393,11 @@ func GenGeneral(r *rng.R, mode int) *General {
 	d.HTML = g.buf.String()
 	return d
 }
+
+var (
+	reDigits = regexp.MustCompile(`^[0-9]+\.?$`)
+	rePageOf = regexp.MustCompile(`^[0-9]+/[0-9]+$`)
+)
 
 // tokensOf splits the text of every text box into tokens, per page, in tree order.
 func tokensOf(pages []*bo.PageBox) (perPage [][]int, stray []string) {
@@ -367,6 +493,8 @@ func runGeneral(m *mp.Model, r *rng.R, n int, fonts text.FontConfiguration, out 
 		var pages []*bo.PageBox
 		var rec *render.Rec
 		draw := i%4 == 0
+		ntok := len(doc.FlowOf)
+		LimitPages(8*(2*ntok+10) + 40)
 		o := render.Guard(8*time.Second, func() {
 			if draw {
 				d, err := render.Full(doc.HTML, fonts, render.Opts{})
@@ -377,6 +505,14 @@ func runGeneral(m *mp.Model, r *rng.R, n int, fonts text.FontConfiguration, out 
 				pages, _, _ = render.LayoutOnly(doc.HTML, fonts, render.Opts{})
 			}
 		})
+		LimitPages(0)
+		if IsPageLoop(o.Panic) {
+			// a page loop that does not end lays the same text out again and again (or never reaches the rest)
+			out.Count(doc.HTML, true)
+			out.Add(res.Finding{Kind: "judge", Op: "judge:general-page-loop", Input: doc.HTML, Key: "page-loop", Seed: seed,
+				Reason: fmt.Sprintf("the page loop does not end: %s for a document of %d words", o.Panic, ntok)})
+			continue
+		}
 		if !o.OK() {
 			// crashes and hangs of the real code are C01's findings; here the case is skipped
 			out.Count(doc.HTML, false)
@@ -412,6 +548,9 @@ func generalCase(m *mp.Model, doc *General, pages []*bo.PageBox, rec *render.Rec
 		if _, ok := doc.Letters[l]; ok {
 			letterCount[l]++
 			continue
+		}
+		if ((doc.Footnotes || doc.PagesCount) && reDigits.MatchString(w)) || (doc.PagesCount && rePageOf.MatchString(w)) {
+			continue // footnote calls / markers ("1", "1."), the margin box "2/5"
 		}
 		remnant := false
 		for t := range doc.FFFirstTok {
@@ -473,6 +612,14 @@ func generalCase(m *mp.Model, doc *General, pages []*bo.PageBox, rec *render.Rec
 			perPageFlow[f][pi][t]++
 		}
 	}
+	pageOfTok := map[int]int{} // first page a token is on
+	for pi, p := range perPage {
+		for _, t := range p {
+			if _, ok := pageOfTok[t]; !ok {
+				pageOfTok[t] = pi
+			}
+		}
+	}
 	// violations are grouped by class; the class is the Finding.Key
 	byClass := map[string][]string{}
 	add := func(class, why string) { byClass[class] = append(byClass[class], why) }
@@ -516,6 +663,57 @@ func generalCase(m *mp.Model, doc *General, pages []*bo.PageBox, rec *render.Rec
 			} else {
 				add("float-unsplit", fmt.Sprintf("float %s (%d fragments): text %s %v", f.id, frags[f.id], v, names))
 			}
+		case flowFootnote:
+			// history predicates (all about an overflowing footnote area): another footnote called on the same
+			// page was reported to a later page; the footnote area of the call's page (or the next one) also
+			// received a reported footnote or a footnote that is laid out twice; the page ends right after the call
+			cp, okc := pageOfTok[f.callTok]
+			reported, contended := false, false
+			for gi, g := range doc.Flows {
+				if g.kind != flowFootnote || gi == fi || len(got[gi]) == 0 {
+					continue
+				}
+				gp, ok := pageOfTok[g.callTok]
+				if !ok || !okc {
+					continue
+				}
+				if gp == cp && pageOfTok[got[gi][0]] > gp {
+					reported = true
+				}
+				for pg := range perPageFlow[gi] {
+					if (pg == cp || pg == cp+1) && (pg > gp || len(perPageFlow[gi]) >= 2) {
+						contended = true
+					}
+				}
+			}
+			// … or the footnote is in the tail of its page's footnotes that is missing altogether
+			tail := okc
+			for gi, g := range doc.Flows {
+				if g.kind == flowFootnote && gi != fi && okc && g.callTok > f.callTok && len(got[gi]) != 0 {
+					if gp, ok := pageOfTok[g.callTok]; ok && gp == cp {
+						tail = false
+					}
+				}
+			}
+			lastOnPage := false
+			if okc {
+				lastOnPage = true
+				for _, t := range perPage[cp] {
+					if doc.FlowOf[t] == 0 && t > f.callTok {
+						lastOnPage = false
+					}
+				}
+			}
+			switch {
+			case v == "lost" && reported:
+				add("footnote-reported-lost", fmt.Sprintf("footnote body %s (call after %s): text %s %v while another footnote of the same page was reported to the next page", f.id, Tok(f.callTok), v, names))
+			case v == "lost" && (contended || lastOnPage || tail):
+				add("footnote-overflow-lost", fmt.Sprintf("footnote body %s (call after %s): text %s %v; the footnote area of its page overflowed (reported / repeated footnotes on the page: %v, the page ends right after the call: %v, every later footnote of the page is missing too: %v)", f.id, Tok(f.callTok), v, names, contended, lastOnPage, tail))
+			default:
+				add("footnote-"+v, fmt.Sprintf("footnote body %s (call after %s): text %s %v", f.id, Tok(f.callTok), v, names))
+			}
+		case flowCell:
+			add("table-cell-"+v, fmt.Sprintf("table cell %s: text %s %v", f.id, v, names))
 		case flowAbs:
 			if frags[f.id] >= 2 || (v == "lost" && frags[f.id] >= 1) {
 				add("abspos-fragmented", fmt.Sprintf("abs-pos %s (%d fragments): text %s %v", f.id, frags[f.id], v, names))
@@ -525,9 +723,24 @@ func generalCase(m *mp.Model, doc *General, pages []*bo.PageBox, rec *render.Rec
 		default:
 			// partition the lost / duplicated tokens by the construct they belong to
 			var ff, inl, rest []string
+			badSet := map[int]bool{}
+			for _, t := range bad {
+				badSet[t] = true
+			}
+			ffPrefix := map[int]bool{} // lost words that form the beginning of a floated-::first-letter paragraph
+			if v == "lost" {
+				for _, para := range doc.FFParas {
+					for _, t := range para {
+						if !badSet[t] {
+							break
+						}
+						ffPrefix[t] = true
+					}
+				}
+			}
 			for _, t := range bad {
 				switch {
-				case doc.FFFirstTok[t] && v == "lost":
+				case ffPrefix[t]:
 					ff = append(ff, Tok(t))
 				case doc.InlineFloatPara[t]:
 					inl = append(inl, Tok(t))
